@@ -213,7 +213,10 @@ def walk_no_nested_body(f: ast.AST) -> Iterator[ast.AST]:
 class Index:
     """All modules of <repo>/BPTK_Py parsed from the working tree."""
 
-    def __init__(self, repo: str):
+    def __init__(self, repo: str, overlay: Optional[Dict[str, str]] = None):
+        """*overlay* maps repo-relative paths to replacement source text (used by the
+        self-validation variants: the variant tree exists only in memory)."""
+        self.overlay = overlay or {}
         self.repo = os.path.abspath(repo)
         self.modules: Dict[str, Module] = {}
         self.digest = hashlib.sha256()
@@ -229,8 +232,11 @@ class Index:
                     continue
                 p = os.path.join(d, fn)
                 rel = os.path.relpath(p, self.repo)
-                with open(p, "r", encoding="utf-8") as fh:
-                    text = fh.read()
+                if rel in self.overlay:
+                    text = self.overlay[rel]
+                else:
+                    with open(p, "r", encoding="utf-8") as fh:
+                        text = fh.read()
                 self.digest.update(rel.encode() + b"\0" + text.encode() + b"\0")
                 try:
                     import warnings
